@@ -46,6 +46,7 @@ Produced by `tools/gen_catch_table.py` from the logs of `./check selftest seeded
 `seeded/<id>/` with its demonstration); "mutant" = reverse patch of a repaired defect or a hand-written mutation.
 
 '''
-s = s[:start] + head + table + '\n\n' + s[end:]
+notes = open('/verif/tools/catch_notes.md').read() if os.path.exists('/verif/tools/catch_notes.md') else ''
+s = s[:start] + head + table + '\n\n' + notes + '\n' + s[end:]
 open(p, 'w').write(s)
 print(table[:600])
